@@ -101,6 +101,23 @@ func (e *Env) constTerm(tv types.TypeAndValue, n ast.Node) Term {
 }
 
 func (e *Env) eval(x ast.Expr) Term {
+	t := e.eval0(x)
+	// static typing of arrays: a slice value of type []E refers to an array of E (arr.type), whatever version
+	// of the heap it was read from. Emitted for ground slice-typed terms; used by the typed regions elems[T]().
+	if t.Sort == SSlice && !boundVarRe.MatchString(t.S) {
+		if tv, ok := e.info.Types[x]; ok && tv.Type != nil {
+			if st, ok := tv.Type.Underlying().(*types.Slice); ok {
+				e.st.assumeArrType(t, st.Elem())
+			}
+		}
+	}
+	return t
+}
+
+// bound variables of generated quantifiers are named <name>!<letter><digits>; fresh constants <name>!<digits>
+var boundVarRe = regexp.MustCompile(`![a-z]`)
+
+func (e *Env) eval0(x ast.Expr) Term {
 	if tv, ok := e.info.Types[x]; ok && tv.Value != nil {
 		return e.constTerm(tv, x)
 	}
@@ -576,12 +593,12 @@ func (e *Env) evalCall(n *ast.CallExpr) Term {
 		return app(SBool, sym, e.eval(n.Args[0]))
 	case "ncalls":
 		if e.st.callsLost {
-			e.fail(n, "ncalls(): the call log is not exact after a loop")
+			return e.st.sc.fresh("ncalls_unknown", SInt) // after a loop the number of logged calls is not known
 		}
 		return intLit(int64(len(e.st.calls)))
 	case "callarg", "callres":
 		if e.st.callsLost {
-			e.fail(n, "%s(): the call log is not exact after a loop", name)
+			return e.st.sc.fresh("nocall", e.u().sortOf(e.typeOf(n)))
 		}
 		kv, ok1 := e.info.Types[n.Args[0]]
 		iv, ok2 := e.info.Types[n.Args[1]]
@@ -849,6 +866,7 @@ type LocSet struct {
 	Region bool // every object of the family (type-level footprint)
 	Ghost  bool // a ghost variable
 	Guard  *Term // the location is part of the footprint only when the guard holds
+	ArrType int  // elems[T]() regions: only arrays whose element type is T
 	Owner  *Term // captures(f): every cell of the family owned by (captured in) the closure value
 	Desc  string
 }
@@ -974,7 +992,25 @@ func (e *Env) evalLocSet(a ast.Expr) []LocSet {
 		}
 		if ix, ok := n.Fun.(*ast.IndexExpr); ok {
 			if id, ok := ix.X.(*ast.Ident); ok && id.Name == "fields" {
-				return e.regionOf(e.typeOf(ix.Index), n)
+				out := e.regionOf(e.typeOf(ix.Index), n)
+				if len(n.Args) > 0 {
+					// fields[T]("a", "b"): every field except those named
+					skip := map[string]bool{}
+					for _, a := range n.Args {
+						if bl, ok := a.(*ast.BasicLit); ok {
+							skip[strings.Trim(bl.Value, "\"")] = true
+						}
+					}
+					var kept []LocSet
+					for _, ls := range out {
+						nm := ls.Fam[strings.LastIndex(ls.Fam, ".")+1:]
+						if !skip[nm] {
+							kept = append(kept, ls)
+						}
+					}
+					out = kept
+				}
+				return out
 			}
 			if id, ok := ix.X.(*ast.Ident); ok && id.Name == "elems" {
 				stp, ok := e.typeOf(ix.Index).Underlying().(*types.Slice)
@@ -982,7 +1018,7 @@ func (e *Env) evalLocSet(a ast.Expr) []LocSet {
 					e.fail(n, "elems[T](): T must be a slice type")
 				}
 				f := e.st.elemFam(e.u().sortOf(stp.Elem()))
-				return []LocSet{{Fam: f.Name, Region: true, Obj: intLit(0), Desc: "elems[" + stp.String() + "]"}}
+				return []LocSet{{Fam: f.Name, Region: true, Obj: intLit(0), ArrType: e.u().typeID(stp.Elem()), Desc: "elems[" + stp.String() + "]"}}
 			}
 			if id, ok := ix.X.(*ast.Ident); ok && id.Name == "maps" {
 				mt, ok := e.typeOf(ix.Index).Underlying().(*types.Map)
